@@ -71,8 +71,8 @@ class MarginalRayHeightSolve(BaseSolve):
         ya, ua = self.optic.paraxial.marginal_ray()
         # the ray reaches the surface with the slope it has after the previous
         # surface; moving the surface by dz changes the height there by dz*u
-        offset = (self.height - ya[self.surface_idx]) \
-            / ua[self.surface_idx - 1]
+        offset = float(((self.height - ya[self.surface_idx])
+                        / ua[self.surface_idx - 1])[0])
 
         # shift current surface and all subsequent surfaces
         for surface in self.optic.surface_group.surfaces[self.surface_idx:]:
